@@ -89,19 +89,21 @@ func classUnlock(err error, panicked bool) string {
 // message with the implementation's own functions (an environment value for the model, like the
 // units an add mints): pass | queue | block | panic.
 func (e *env) healthStage(pool string, lp *clptypes.LiquidityProvider, byUnits bool, w sdk.Uint, wb int64) (res string) {
+	stage := "calcpanic:?" // a panic inside the payout calculation, which the handler runs before the unlock check
 	defer func() {
 		if r := recover(); r != nil {
-			res = "panic"
+			res = stage
 		}
 	}()
 	ctx := e.ctx
-	if lp == nil || !e.app.MarginKeeper.IsPoolEnabled(ctx, pool) {
+	if lp == nil {
 		return "pass"
 	}
 	p, err := e.app.ClpKeeper.GetPool(ctx, pool)
 	if err != nil {
 		return "pass"
 	}
+	stage = "calcpanic:" + p.PoolUnits.String() // with the stored fact the driver needs to accept it (pool units)
 	nd, ed := p.ExtractDebt(p.NativeAssetBalance, p.ExternalAssetBalance, false)
 	var wn, we sdk.Uint
 	if byUnits {
@@ -109,6 +111,10 @@ func (e *env) healthStage(pool string, lp *clptypes.LiquidityProvider, byUnits b
 	} else {
 		wn, we, _, _ = clpkeeper.CalculateWithdrawal(p.PoolUnits, nd.String(), ed.String(), lp.LiquidityProviderUnits.String(), fmt.Sprint(wb), sdk.ZeroInt())
 	}
+	if !e.app.MarginKeeper.IsPoolEnabled(ctx, pool) {
+		return "pass"
+	}
+	stage = "panic" // the futurePool subtraction of the margin-health stage, after the unlock check
 	future := p
 	future.NativeAssetBalance = future.NativeAssetBalance.Sub(wn)
 	future.ExternalAssetBalance = future.ExternalAssetBalance.Sub(we)
